@@ -56,6 +56,13 @@ func (d *PathDecoder) completionAtPos(ctx context.Context, body *hclsyntax.Body,
 
 	for _, attr := range body.Attributes {
 		if d.isPosInsideAttrExpr(attr, pos) {
+			if pos.Byte < attr.Expr.Range().Start.Byte && !isEmptyExpression(attr.Expr) {
+				// The cursor is directly after "=" while the value only begins
+				// later on the line: nothing of the value is at the cursor and
+				// an edit range derived from it would start after the cursor
+				// (and end before its own start).
+				return lang.ZeroCandidates(), nil
+			}
 			if bodySchema.Extensions != nil && bodySchema.Extensions.SelfRefs {
 				ctx = schema.WithActiveSelfRefs(ctx)
 			}
